@@ -555,9 +555,9 @@ lem('c18_connp_destroy_keeps_data', ['htp_connection_parser.c'], CONNPO_H,
     'htp_connp_destroy ; htp_tx_destroy(a complete transaction of that connection) ; htp_conn_destroy - the documented history "destroy the parser, keep connection and transactions": the parser\'s own buffers are freed once, '
     'connection and transaction stay live and usable, the transaction can be destroyed afterwards without touching freed memory, nothing leaks',
     ['same hand-built parser state as c18_connp_destroy_all_midstream (any subset of buffered lines / pending headers / PUT record), one COMPLETE transaction',
-     'KNOWN FINDING c01_connp_destroy_dangling_tx (findings/c01_connp_destroy_dangling_tx.c, ASan heap-use-after-free confirmed): htp_connp_destroy leaves tx->connp of the surviving transactions pointing at the freed parser and '
-     'htp_tx_destroy_incomplete dereferences it (htp_connp_tx_remove). With KNOWN_F_C01_CONNP_DESTROY_DANGLING the harness detaches the transaction itself; probe = the same unit without the macro (fails on the unchanged tree)'],
-    defs={'LIFE_KEEP_DATA': 1, 'KNOWN_F_C01_CONNP_DESTROY_DANGLING': 1}, link=['htp_transaction.c'] + [x for x in TXL2 if x != 'htp_connection_parser.c'], unwind=6, min_obl=100)
+     'finding c01_connp_destroy_dangling_tx (findings/c01_connp_destroy_dangling_tx.c, ASan heap-use-after-free: htp_connp_destroy left tx->connp of the surviving transactions pointing at the freed parser and '
+     'htp_tx_destroy_incomplete dereferenced it) is FIXED in /repo; the harness-side detach KNOWN_F_C01_CONNP_DESTROY_DANGLING is no longer defined by any unit'],
+    defs={'LIFE_KEEP_DATA': 1}, link=['htp_transaction.c'] + [x for x in TXL2 if x != 'htp_connection_parser.c'], unwind=6, min_obl=100)
 
 # ----------------------------------------------------------------------------------------------------------------------
 # one request cookie ; the cookie part of htp_tx_destroy_incomplete
